@@ -73,7 +73,21 @@ def parse_class(g: Grammar, text: str) -> Optional[str]:
 def rewriter_table(repo: Repo) -> Dict[str, str]:
     mod = repo.mod("xlate")
     fn = mod.func_n("C7N_Rewriter.primitive")
-    for n in ast.walk(fn):
+    cands = [fn]
+    # the table may be returned by another method of the class that primitive() calls without arguments
+    for c in ast.walk(fn):
+        if isinstance(c, ast.Call) and not c.args and isinstance(c.func, ast.Attribute) and dotted(c.func.value) in ("C7N_Rewriter", "self", "cls"):
+            if mod.has_func(f"C7N_Rewriter.{c.func.attr}"):
+                cands.append(mod.func(f"C7N_Rewriter.{c.func.attr}"))
+    # ... or kept as a class attribute / module constant
+    from ..core.model import deref
+
+    for c in ast.walk(fn):
+        if isinstance(c, ast.Subscript) and isinstance(c.ctx, ast.Load):
+            d = deref(mod, c.value, mod.cls("C7N_Rewriter"), fn)
+            if isinstance(d, ast.Dict):
+                cands.append(ast.Expression(body=d))
+    for n in [x for cand in cands for x in ast.walk(cand)]:
         if isinstance(n, ast.Dict) and len(n.keys) > 10:
             out = {}
             for k, v in zip(n.keys, n.values):
@@ -218,7 +232,7 @@ def check(repo: Repo, run: Run) -> None:
     # B1 -----------------------------------------------------------------
     want_sep = {"or": [" || "], "and": [" && "], "list": [" && "], "not": [" && "]}
     for b in branches:
-        run.ob("C18.B1", f"logical_connector[{b['kind']}]|separator", b["joins"] == want_sep[b["kind"]],
+        run.ob("C18.B1", f"logical_connector[{b['kind']}]|separator", sorted(set(b["joins"])) == want_sep[b["kind"]],
                f"the `{b['kind']}` branch joins its clauses with {b['joins']}; Custodian semantics need {want_sep[b['kind']]}", mod.loc(b["node"]))
     nb = [b for b in branches if b["kind"] == "not"][0]
     rets = [ast.unparse(r).replace("'", '"') for r in nb["returns"]]
